@@ -25,6 +25,13 @@ CHECKS["C16"] = dict(
     note="Trusted: pycparser C grammar, CPython ast. Math function *names* are mapped through the formatter's own tables (structure only). INT/INT division and ill-typed trees are outside the domain.",
     design="5/C16",
 )
+CHECKS["C17"] = dict(
+    category="exploration",
+    technique="exhaustive operand-kind pairs x Hypothesis values for the operator overloads (value oracle); differential execution of FFCx's kernel AST under identity/single/all optimiser passes in a bounds-checking LNodes interpreter, plus compiled optimised vs unoptimised kernels",
+    text="All ordered pairs of 26 operand kinds under + - * / (and reflected variants with Python numbers, unary minus, float_product, MultiIndex.global_index, create_nested_for_loops) are built through the overloads and their value compared with the plain operation. Kernel bodies of generated forms are produced with the optimiser entry point swapped and executed on identical inputs; any difference in A or a use-before-definition is a violation. Kind pairs are exhausted; values and bodies are sampled.",
+    note="Trusted: the harness's LNodes interpreter (C semantics of operators), gcc. INT/INT division and division by zero-valued operands excluded.",
+    design="5/C17",
+)
 PENDING = {}
 
 def main():
